@@ -143,6 +143,55 @@ Theorem C11_kernel_params : Link_C11.kernel_params_pinned.
 Proof. exact Link_C11.kernel_params_ok. Qed.
 Print Assumptions C11_kernel_params.
 
+(* ---- restarts of the node (ORestart: a new locator manager over the same database:
+   m.locators and the caches empty, maxTSInDB = 0, the blocks that were not finalized lost;
+   the chain continues with manager.NewTracker from a finalized block) ---- *)
+
+(* With restarts the property does NOT hold for the code as it is, even away from the
+   bound ts = bts+th and even with `>` in the guard: after a restart the new manager
+   does not know the bound of the data already in the database; when its first list
+   is evicted, maxTSInDB becomes that list's ts+th, which can be below the timestamp
+   of a transaction finalized before the restart under a larger threshold; the cache
+   shortcut then skips the database.  hist_ok_free: every Add is a validated one. *)
+Theorem C11_restart_refuted :
+  exists tsof gof h t,
+    hist_ok_free tsof gof VCode in_window_open init h /\ ~ NoDup (chain_ids (run init h) t).
+Proof. exact restart_refuted. Qed.
+Print Assumptions C11_restart_refuted.
+
+Theorem C11_restart_refuted_strict_guard :
+  exists tsof gof h t,
+    hist_ok_free tsof gof VStrict in_window_open init h /\
+    ~ NoDup (chain_ids (run_v VStrict init h) t).
+Proof. exact restart_refuted_strict. Qed.
+Print Assumptions C11_restart_refuted_strict_guard.
+
+(* What holds with restarts.  hist_ok_r adds to hist_ok, for every block (NewTracker /
+   New) created in a state m: RInv.preok m g (ts+th) — every id of the block's group that
+   is in the database, is not in m.locators, while maxTSInDB of the group is 0
+   (unknown), has timestamp <= ts+th of the new block (ids with timestamp <= 0 aside).
+   Before the first restart no such id exists; after a restart these are the ids
+   finalized by the earlier processes, until the first eviction.  It is implied by
+   "ts+th of a block is never below the largest timestamp finalized so far"
+   (C11_restart_condition), e.g. by a threshold that does not shrink across a
+   restart faster than block time advances. *)
+Theorem C11_no_replay_with_restarts_except_bound : forall tsof gof h,
+  hist_ok_r tsof gof VCode in_window_open init h ->
+  forall t, NoDup (chain_ids (run init h) t).
+Proof. exact no_replay_restart_except_bound. Qed.
+Print Assumptions C11_no_replay_with_restarts_except_bound.
+
+Theorem C11_no_replay_with_restarts_strict_guard : forall tsof gof h,
+  hist_ok_r tsof gof VStrict in_window init h ->
+  forall t, NoDup (chain_ids (run_v VStrict init h) t).
+Proof. exact no_replay_restart_strict. Qed.
+Print Assumptions C11_no_replay_with_restarts_strict_guard.
+
+Theorem C11_restart_condition : forall tsof gof m g bound,
+  (forall X, In X (m_db m) -> gof X = g -> tsof X <= bound) -> RInv.preok tsof gof m g bound.
+Proof. exact preok_of_db_bound. Qed.
+Print Assumptions C11_restart_condition.
+
 (* ---- the transition layer (service/transition.go): the threshold of a group is the one
    of the state the block is executed on, for the window AND for the id list ---- *)
 From Goloop Require Import Model_TxChain Proofs_TxChain.
